@@ -121,13 +121,15 @@ theorem parseRelMapFile_total (bs : Bytes) : ∃ r, Model.parseRelMapFile bs = .
   by_cases h : bs.length < 512
   · simp [h]
   · simp (disch := omega) only [h, if_false, uN_ok, ok_bind, pure_eq_ok]
+    have hge : bs.length ≥ 8 + (if bs.length = 524 then 64 else 62) * 8 + 4 := by split <;> omega
+    generalize (if bs.length = 524 then 64 else 62 : Nat) = mx at hge ⊢
     split
     · exact ⟨_, rfl⟩
     · split
       · exact ⟨_, rfl⟩
       · obtain ⟨r, hr⟩ := relMapLoop_total bs (toSigned 32 (rd 4 (List.drop 4 bs))).toNat 8
         rw [hr]
-        simp (disch := omega) only [ok_bind, if_pos (show bs.length ≥ 504 + 4 by omega)]
+        simp only [ok_bind]
         exact ⟨_, rfl⟩
 
 /-- a page with the sequence magic whose only tuple is 23 bytes long with t_hoff = 0 -/
